@@ -370,7 +370,7 @@ class PipeOps(FullOps):
             return ListV(items=None, elem=b.elem.but(note="prefix-sum-cur"), kind=a.kind, order=(order_src(b.order), b.order[1][:-5]))
         if isinstance(a, ListV) and isinstance(b, ListV) and a.items is None and b.items is None and a.order and b.order:
             oa, ob = a.order, b.order
-            mode = "same" if oa[1] == "same" and ob[1] == "same" else "mixed"
+            mode = "same" if oa[1] == "same" and ob[1] == "same" else ("unordered" if {oa[1], ob[1]} <= {"same", "unordered"} else "mixed")
             e = join(a.elem, b.elem) if a.elem is not None and b.elem is not None else (a.elem or b.elem)
             return ListV(items=None, elem=e, kind=a.kind, order=(order_src(oa) + order_src(ob), mode))
         return super().concat_lists(a, b, node)
